@@ -68,4 +68,41 @@ def decide (c : Cfg) (p : Peer) : Bool :=
 `strings.Split(remoteAddr.String(), ":")[0]` where the address prints as `node:service`. -/
 def expectedClientName (node svc : Bytes) : Bytes := (node ++ 58 :: svc).takeWhile (· != 58)
 
+/-! ## what a handshake presents, and what a server profile asks for -/
+
+/-- the verdict on a presented chain: only its first certificate — the leaf — is the peer; whatever else is
+appended (intermediates, or copies of other nodes' certificates) is never compared with the pins or the name -/
+def decideChain (c : Cfg) : List Peer → Bool
+  | [] => false
+  | leaf :: _ => decide c leaf
+
+inductive ClientAuth where
+  | noClientCert | verifyIfGiven | requireAndVerify
+  deriving DecidableEq, Repr
+
+/-- `PrepareTLSServerConfig`: `requireclientcert` wins over a mere `clientcas` bundle -/
+def serverClientAuth (require hasCAs : Bool) : ClientAuth :=
+  if require then .requireAndVerify else if hasCAs then .verifyIfGiven else .noClientCert
+
+/-- `Netceptor.listen`: the client certificate is bound to the packet source node exactly for
+`RequireAndVerifyClientCert` -/
+def listenerBindsClientName (ca : ClientAuth) : Bool := ca == .requireAndVerify
+
+/-- Is a stream to a TLS listener established?  `cert`: what the dialling node `source` presents (`none`: no
+certificate).  With a required client certificate the listener's verifier expects the source node's ID; with
+`clientcas` only, a certificate must be presented as well (the installed verifier refuses an empty chain) and must
+chain, be valid and usable by a client, but need not name the source; otherwise no certificate is asked for. -/
+def established (require hasCAs : Bool) (source : Bytes) (cert : Option Peer) : Bool :=
+  match serverClientAuth require hasCAs with
+  | .requireAndVerify =>
+    (match cert with
+     | none => false
+     | some p => decide { pins := [], expected := source, mode := .receptor, role := .client } p)
+  | .verifyIfGiven =>
+    -- the verifier is installed for this mode too and refuses an empty chain: in effect a certificate is needed
+    (match cert with
+     | none => false
+     | some p => decide { pins := [], expected := [], mode := .dns, role := .client } p)
+  | .noClientCert => true
+
 end Receptor.Verify
